@@ -6,10 +6,50 @@ ROOT = os.path.dirname(os.path.dirname(os.path.abspath(__file__)))
 
 # id -> (technique, level text, level note, design ref)
 CHECKS = {
+ "C01": ("proptest + libFuzzer over a byte choice sequence; differential against an independent reference model of the condition rules",
+         "parse_spends::<EmptyVisitor|MempoolVisitor> followed by OwnedSpendBundleConditions::from is compared, verdict and summary field by field, with vcore::model::conditions (written from the README implementation notes, flag doc-comments, eligibility comments and cost constants; evaluates the whole input, so it is independent of the implementation's evaluation order) on generated bundle trees: valid-by-construction bundles over small pools (so cross-spend relations match or nearly match) plus labelled condition-, spend- and list-level mutations, every subset of the four strictness/fork flags, signature validation on in ~10% with a harness-computed aggregate signature, and four allocator representations of the same value (canonical atoms, small numbers, substr/concat heap atoms, DAG vs expanded pairs). Exploration: hundreds of thousands of distinct non-trivial cases per quick run; cannot prove absence.",
+         "Trusts the reference model as the statement of the rules (error codes are not compared); public-key validity is delegated to chia-bls (decided by C16); the fast-forward bit is not compared for spends mixing ASSERT_MY_PARENT_ID with unrecognised opcodes.",
+         "DESIGN.md section 4, C01"),
+ "C02": ("proptest; invariant asserted on every accepted result of five entry points, with generators constructing violations",
+         "The conservation/uniqueness invariant (Σ created + reserved fee ≤ Σ spent in 128-bit arithmetic, distinct coin ids, no duplicate (puzzle hash, amount) outputs per spend, totals equal the sums, coin id = sha256 of the canonical fields, puzzle hash = reference tree hash of the reveal) is checked on every Ok of parse_spends, run_block_generator, run_block_generator2, run_spendbundle and validate_clvm_and_signature. A dedicated frontier generator builds would-be violations: sums past 2^64, outputs whose sum modulo 2^64 is affordable while the true sum is not, reserve fees wrapping, balance/fee off by one, duplicate outputs differing only in hint, the same coin at two positions, up to 3000 spends.",
+         "Only accepted results are examined; puzzle hashes are compared with the harness's reference tree hash.",
+         "DESIGN.md section 4, C02"),
+ "C03": ("proptest; per-assertion arithmetic model of every lock/birth condition in a generated chain state",
+         "For generated chain states and bundles of the 10 lock/birth kinds with arguments drawn around the state (boundary ±1, 0, type maximum, negative, oversized, redundant-zero, duplicates, opposing pairs, ephemeral parent/child), the implementation passes (parse_spends Ok and check_time_locks(nowrap) Ok) iff every original assertion evaluated separately over i128 with saturating sums holds and no relative/birth assertion sits on a coin created in the bundle; an Impossible*Constraints rejection must be backed by an unsatisfiable before/after pair in the same scope.",
+         "Chain values are generated below the type maxima; legacy wrapping mode is out of scope.",
+         "DESIGN.md section 4, C03"),
+ "C04": ("bounded-exhaustive sweep of the cost table + proptest; cost model (exact big-integer table), clvmr re-execution and limit metamorphic relation",
+         "Every row of the condition cost table (35 opcodes, unknown opcodes, all 256 two-byte cost slots × 5 high bytes, SOFTFORK arguments to 2^32-1, per-spend cost) is enumerated in both fork modes and both visitors and compared with the model's table; random bundles at parse_spends, run_block_generator2, run_block_generator and run_spendbundle (byte and INTERNED_GENERATOR pricing) must satisfy cost = byte|interned + execution + condition with execution cost recomputed by the harness with clvmr and the interned size by the harness's own de-duplication; accumulators must add up; every accepted result is re-run at max_cost = cost (identical result), at cost-1 and smaller limits (cost-exceeded) and at a larger limit (same cost). Exhaustive over the table rows, sampled elsewhere.",
+         "Legacy-path execution cost is taken from the report (only the sum identity and limit behaviour are checked there).",
+         "DESIGN.md section 4, C04"),
+ "C06": ("proptest; metamorphic relations between runs (strict ⇒ lenient with identical summary; permutation invariance incl. at the cost limit)",
+         "No model: (1) for strictness sets S1 ⊆ S2 ⊆ {NO_UNKNOWN_CONDS, STRICT_ARGS_COUNT, LIMIT_SPENDS}, Ok under S2 implies Ok under S1 with an identical summary; (2) a generated permutation of spends and of conditions within spends leaves verdict, cost, every aggregate and every per-coin summary unchanged (ELIGIBLE_FOR_FF excepted), also at max_cost = cost and cost-1. Generators are biased to bundles that pass full strictness so the premises hold in ~60% of cases.",
+         "Signature validation is off in these runs; created-coin lists are compared as sets.",
+         "DESIGN.md section 4, C06"),
+ "C07": ("proptest + libFuzzer; differential legacy vs native generator execution",
+         "run_block_generator and run_block_generator2 are run on the same program, block references, flags and cost limit: structured generators (library-built, quoted plain/back-reference, procedural cons, deserializing a block reference through the passed deserializer) with labelled output-shape mutations, byte-mutated programs, flag sets incl. MEMPOOL_MODE/SIMPLE_GENERATOR/LIMIT_HEAP, limits at and between the two totals. Both-accept must agree on spends, conditions, amounts, fee, locks and condition cost with native cost ≤ legacy cost; the only tolerated asymmetry is the legacy path failing on cost/interpreter resource limits.",
+         "INTERNED_GENERATOR is excluded (the legacy path has no interned pricing); error codes of double rejections are not compared.",
+         "DESIGN.md section 4, C07"),
+ "C08": ("proptest; differential over five validation paths plus cost and length relations",
+         "run_spendbundle vs run_block_generator2 on four generators built from the same bundle (solution_generator, solution_generator_backrefs, BlockBuilder, InternedBlockBuilder) under 8 flag sets × byte/interned pricing: same verdict, same conditions (matched by coin id), condition cost equal, execution cost differing by the quote (20), cost(plain) − cost(mempool) = 20 + 2·cost_per_byte (byte mode) or 20 (interned), non-byte cost equal across serializations, interned cost independent of serialization, predicted generator length = actual.",
+         "Mempool-only outputs (eligibility bits, fingerprint) excluded; reveals are plainly serialized (the statement's precondition).",
+         "DESIGN.md section 4, C08"),
+ "C09": ("proptest + libFuzzer; differential of every trusted helper against validated conditions",
+         "For generators accepted by run_block_generator2 (all CREATE_COIN memo shapes, amount encodings, unknown/non-atom opcodes, spend-level extra fields): additions_and_removals, get_coinspends_for_trusted_block (incl. re-validation of the rebuilt generator), get_coinspends_with_conditions_for_trusted_block, get_puzzle_and_solution_for_coin for every removed coin, and SpendBundle::additions (for bundles also valid under mempool strictness) must report what validation reports.",
+         "The validated conditions are the reference. SpendBundle::additions is asserted only for bundles valid under mempool strictness (in pure consensus mode a pair opcode is ignored, this convenience helper refuses it).",
+         "DESIGN.md section 4, C09"),
  "C11": ("bounded-exhaustive enumeration + proptest random values against an arithmetic (num-bigint) reference and the interpreter's own encoder",
          "Every integer encoder/decoder in the tree (Coin::coin_id, u64_to_bytes, clvm_bytes_len, clvm-traits ints of every width, compute_coin_id and the AGG_SIG_AMOUNT suffix as consensus reports them, sanitize_uint widths 4/8) is compared with an arithmetic reference and with clvmr's Allocator::new_number on: all boundary values (2^k±3, all 1-/2-bit patterns, all 16-bit values), every value below 2^27 (quick) / 2^32 (thorough), millions of random values of every bit length, every atom of length ≤2 and every atom of length 3..10 over {00,01,7f,80,ff}. Exhaustive on those finite sub-domains, sampled elsewhere; a moved ladder threshold is caught because the thresholds themselves are enumerated.",
          "Trusts num-bigint's two's-complement conversion and clvmr's Allocator (cross-checked against each other in every case). Private helpers are observed through their public callers.",
          "DESIGN.md section 4, C11"),
+ "C12": ("proptest + bounded-exhaustive enumeration of proof trees; reference trie hash and independent proof parser; root-preserving proof rewrites",
+         "compute_merkle_set_root, MerkleSet::from_leafs().get_root() and a reference implementation written from the definition agree under permutation and duplication; generate_proof/validate_merkle_proof are complete for members and non-members sharing k-bit prefixes with members; soundness is attacked with structural rewrites of honest proofs (the model decides which keep the root) and with exhaustive enumeration of all proof trees over small alphabets/depths validated against every honest subset root: validate_merkle_proof must return Err or the true membership. Exhaustive on the enumerated spaces, sampled elsewhere.",
+         "Soundness over all byte strings can be refuted, not proved; the bounds explored are in the evidence.",
+         "DESIGN.md section 4, C12"),
+ "C18": ("proptest stateful (model-based) histories against a BTreeMap model and an independent tree-hash/proof recomputation",
+         "Histories of up to 60 operations (insert at auto/root/leaf locations incl. free and out-of-range indexes, upsert, delete, batch insert with fresh and duplicate entries, lazy hash calculation, reload, proofs) over small and large key spaces; after every step the blob's content equals the model (updated iff the operation returned Ok), check_integrity passes, a failed operation leaves content/root unchanged, reload is equivalent, the root equals the harness's bottom-up recomputation and every key has a valid inclusion proof ending in that root. Known genuine defects are keyed on oracle signatures and excluded by construction so the search continues behind them.",
+         "The model encodes no failure policy: which operations must succeed is not asserted (only non-vacuity floors).",
+         "DESIGN.md section 4, C18"),
 }
 
 NOT_YET = "check not built yet in this revision of /verif (work in progress; see DESIGN.md section 4 for the planned generated-input check)"
